@@ -343,7 +343,7 @@ def rule_lit(ctx: Ctx) -> RuleResult:
             else:
                 c = sup[0]
                 kws = {kw.arg: norm(kw.value) for kw in c.keywords if kw.arg}
-                star = [norm(kw.value) for kw in c.keywords if kw.arg is None]
+                star = {x.id for kw in c.keywords if kw.arg is None for x in ast.walk(kw.value) if isinstance(x, ast.Name)}
                 if f.node.args.kwarg and f.node.args.kwarg.arg not in star:
                     problems.append(f"**{f.node.args.kwarg.arg} is not forwarded")
                 for p in named:
@@ -828,25 +828,45 @@ def rule_sib2(ctx: Ctx) -> RuleResult:
     if n_impl < 3:
         raise AnalysisError(f"SIB-2: only {n_impl} implementations attach the original key")
     # overrides that extend the inherited kwargs must keep them (the alias lives there)
+    def _is_super_kwargs(e):
+        return isinstance(e, ast.Call) and norm(e.func).startswith("super()") and norm(e.func).endswith("._get_field_kwargs")
     for k in prog.subclasses(base, strict=True):
         for f in k.methods.get("_get_field_kwargs", []):
-            sup = [n for n in walk_no_nested(f.node) if isinstance(n, ast.Assign) and isinstance(n.value, ast.Call)
-                   and norm(n.value.func).startswith("super()") and norm(n.value.func).endswith("._get_field_kwargs")]
-            if not sup:
+            own_attach = any(isinstance(n, ast.Assign) and isinstance(n.targets[0], ast.Subscript)
+                             and isinstance(n.targets[0].slice, ast.Constant) and n.targets[0].slice.value in ("alias", "metadata")
+                             for n in walk_no_nested(f.node))
+            if own_attach:
+                continue        # judged above, path by path
+            inherited_attaches = any(
+                any(isinstance(n, ast.Assign) and isinstance(n.targets[0], ast.Subscript) and isinstance(n.targets[0].slice, ast.Constant)
+                    and n.targets[0].slice.value in ("alias", "metadata") for n in walk_no_nested(g.node))
+                for a in prog.mro(k)[1:] for g in a.methods.get("_get_field_kwargs", []))
+            if not inherited_attaches:
                 continue
+            sup = [n for n in walk_no_nested(f.node) if isinstance(n, ast.Assign) and _is_super_kwargs(n.value)]
             rr.instances += 1
-            var = norm(sup[0].targets[0])
-            rebinds = [n for n in walk_no_nested(f.node) if isinstance(n, (ast.Assign, ast.AugAssign)) and n is not sup[0]
+            var = norm(sup[0].targets[0]) if sup else None
+            rebinds = [n for n in walk_no_nested(f.node) if var and isinstance(n, (ast.Assign, ast.AugAssign)) and n not in sup
                        and any(norm(t) == var for t in (n.targets if isinstance(n, ast.Assign) else [n.target]))]
-            dels = [n for n in walk_no_nested(f.node) if isinstance(n, ast.Call) and isinstance(n.func, ast.Attribute)
+            dels = [n for n in walk_no_nested(f.node) if var and isinstance(n, ast.Call) and isinstance(n.func, ast.Attribute)
                     and norm(n.func.value) == var and n.func.attr in ("pop", "clear", "popitem")]
-            rets = [n for n in walk_no_nested(f.node) if isinstance(n, ast.Return) and n.value is not None]
-            ok = not rebinds and not dels and all(norm(r.value) == var for r in rets)
-            rr.ob(f.relpath, f.qualname, norm(sup[0]), "an override that adds field arguments returns the inherited ones too "
+            rets = [n for n in walk_no_nested(f.node) if isinstance(n, ast.Return)]
+            bad_rets = [r for r in rets if not (r.value is not None and ((var and norm(r.value) == var) or _is_super_kwargs(r.value)))]
+            # the variable must hold the inherited dict at every return that uses it
+            if var and not bad_rets:
+                for r in rets:
+                    if norm(r.value) == var:
+                        ds = ctx.defs_reaching(f, r, var) or []
+                        if not ds or any(d not in sup for d in ds):
+                            bad_rets.append(r)
+            ok = not rebinds and not dels and not bad_rets and bool(rets)
+            what = norm(sup[0]) if sup else (norm(rets[0]) if rets else f.name)
+            rr.ob(f.relpath, f.qualname, what, "an override that adds field arguments returns the inherited ones too "
                   "(the alias carrying the original key is among them)", DISCHARGED if ok else VIOLATED,
-                  "inherited dict is only extended and returned" if ok else
+                  "every way out returns the inherited dict, only extended" if ok else
                   (f"`{norm(rebinds[0])[:60]}` replaces the inherited arguments: the alias is lost on that path" if rebinds else
-                   "inherited arguments are removed or another value is returned"), f.node.lineno)
+                   (f"`{norm(bad_rets[0])[:60]}` returns arguments that do not come from the inherited method: the alias is lost "
+                    f"on that path" if bad_rets else "inherited arguments are removed or nothing is returned")), f.node.lineno)
     return rr
 
 
